@@ -22,6 +22,9 @@ type guardedState struct {
 	MapField int
 	MuName   string
 	MapName  string
+	// copy-on-write variant: the map is immutable and published through a sync/atomic.Pointer field; the mutex
+	// serialises writers only
+	COW bool
 }
 
 // findGuarded: struct types of the module that pair a sync mutex with a map.
@@ -50,6 +53,9 @@ func (a *Analysis) findGuarded() []*guardedState {
 				}
 				if _, ok := ft.Underlying().(*types.Map); ok {
 					g.MapField, g.MapName = i, st.Field(i).Name()
+				}
+				if strings.HasPrefix(types.TypeString(ft, nil), "sync/atomic.Pointer[map[") && g.MapField < 0 {
+					g.MapField, g.MapName, g.COW = i, st.Field(i).Name(), true
 				}
 			}
 			if g.MuField >= 0 && g.MapField >= 0 {
@@ -84,7 +90,7 @@ func fieldBase(v *Val, named *types.Named, idx int) (string, bool) {
 }
 
 func (a *Analysis) CheckC19(rep *Report) {
-	rep.Explanation = "Protected state: the map field of the registry struct; lock: the RWMutex field of the same struct value. For every function of the module that touches the map (found through all FieldAddr instructions on that field; entry points analysed with their helpers inlined) and for every path: Q1 each access happens while the mutex of the same base object is held – exclusively for writes (map update, delete, replacing the map), at least shared for reads (lookup, len, range); Q2 every acquisition is released on every exit by the matching method; Q3 all accesses of one operation lie in a single critical section (the exists-check and the insert of a registration are one section); Q4 the map value never leaves a section (returned, stored elsewhere); Q5 the registry pointer is assigned only by its initialiser and neither the struct nor its mutex is ever copied. One RWMutex, every operation one critical section, writers exclusive => data-race-free and linearizable (linearisation point inside the section) for any number of goroutines and any interleaving."
+	rep.Explanation = "Protected state: the map field of the registry struct; lock: the RWMutex field of the same struct value. For every function of the module that touches the map (found through all FieldAddr instructions on that field; entry points analysed with their helpers inlined) and for every path: Q1 each access happens while the mutex of the same base object is held – exclusively for writes (map update, delete, replacing the map), at least shared for reads (lookup, len, range); Q2 every acquisition is released on every exit by the matching method; Q3 all accesses of one operation lie in a single critical section (the exists-check and the insert of a registration are one section); Q4 the map value never leaves a section (returned, stored elsewhere); Q5 the registry pointer is assigned only by its initialiser and neither the struct nor its mutex is ever copied. One RWMutex, every operation one critical section, writers exclusive => data-race-free and linearizable (linearisation point inside the section) for any number of goroutines and any interleaving. Should the registry be re-spelt as copy-on-write (an immutable map behind a sync/atomic.Pointer field, the mutex serialising writers only), the rules for that discipline apply instead: W1 the pointer is replaced only under the writers' mutex of the same object and only by a map made by the operation itself; W2 a table obtained from the pointer is never written; W3 load, check and publish of a writer are one critical section; W4 nothing is written after publication; R1 an operation outside the mutex looks at a single snapshot; Q2/Q4/Q5 as above (linearisation points: the atomic Store of a writer, the atomic Load of a reader)."
 	rep.Trusted = append(trustedBase(), "sync.RWMutex gives mutual exclusion / shared access as documented", "Algorithm() of a registered service is a pure method")
 	rep.Exhaustive = true
 	gs := a.findGuarded()
@@ -104,6 +110,22 @@ func (a *Analysis) CheckC19(rep *Report) {
 						if pt, ok := in.X.Type().Underlying().(*types.Pointer); ok {
 							if n, ok := pt.Elem().(*types.Named); ok && n == g.Struct && in.Field == g.MapField {
 								touch[fn] = true
+								if g.COW {
+									// the atomic variable is used only as the receiver of its own methods (never copied, its
+									// address never kept)
+									for _, ref := range *in.Referrers() {
+										okUse := false
+										if c, isCall := ref.(ssa.CallInstruction); isCall {
+											if callee := c.Common().StaticCallee(); callee != nil && len(c.Common().Args) > 0 && c.Common().Args[0] == ssa.Value(in) && strings.HasPrefix(fullName(callee), "(*sync/atomic.Pointer[") {
+												okUse = true
+											}
+										}
+										if _, isDbg := ref.(*ssa.DebugRef); isDbg {
+											okUse = true
+										}
+										rep.Ob("Q5-no-copy", FuncName(fn)+":atomic", okUse, a.P.Pos(in.Pos()), "the atomic pointer of the registry is used other than through its own methods (copied, or its address kept)")
+									}
+								}
 							}
 						}
 					case *ssa.UnOp:
@@ -188,7 +210,11 @@ func (a *Analysis) CheckC19(rep *Report) {
 				continue
 			}
 			for _, p := range paths {
-				naccess += a.lockDiscipline(rep, g, name, fn, p)
+				if g.COW {
+					naccess += a.cowDiscipline(rep, g, name, fn, p)
+				} else {
+					naccess += a.lockDiscipline(rep, g, name, fn, p)
+				}
 			}
 		}
 		for fn := range touch {
@@ -311,6 +337,161 @@ func (a *Analysis) lockDiscipline(rep *Report, g *guardedState, name string, fn 
 	}
 	if n > 0 {
 		rep.Ob("Q3-single-critical-section", name, sections <= 1, pos, fmt.Sprintf("the accesses of one operation are spread over %d critical sections: another goroutine can interleave between them (check-then-act)", sections))
+	}
+	return n
+}
+
+// cowDiscipline walks one path of an operation on a copy-on-write registry: the table is an immutable map behind an
+// atomic pointer. W1 the pointer is replaced only while the writers' mutex of the same object is held exclusively (or
+// on an object made on this path, which nobody else can see yet), and what is published is a map made on this path;
+// W2 a map obtained from the pointer is never written; W3 an operation that publishes decides on a table it loaded
+// inside the same critical section (load, check and publish are one section); W4 a map is not written after it was
+// published; R1 an operation that does not hold the mutex looks at one snapshot only (a single Load); Q2 locks are
+// balanced and released; Q4 neither the pointer's target nor a loaded table leaves the operation other than by Store.
+func (a *Analysis) cowDiscipline(rep *Report, g *guardedState, name string, fn *ssa.Function, p *Path) int {
+	held := map[string]string{}
+	n, sections, loadsOutside, publishes := 0, 0, 0, 0
+	curHasAccess := false
+	pos := a.P.Pos(fn.Pos())
+	tableOf := func(v *Val) (string, bool) { // v is the address of the atomic field
+		v = stripCT(v)
+		if v == nil || v.Op != "field" {
+			return "", false
+		}
+		return fieldBase(v, g.Struct, g.MapField)
+	}
+	fromTable := func(v *Val) bool { // v derives from a Load of the table
+		return v != nil && v.Contains(func(x *Val) bool {
+			if x.Op != "atomicload" || len(x.Args) == 0 {
+				return false
+			}
+			_, ok := tableOf(x.Args[0])
+			return ok
+		})
+	}
+	loadedMap := func(v *Val) bool { // the published map itself (or the pointer to it), not an element
+		v = stripCT(v)
+		if v == nil {
+			return false
+		}
+		if v.Op == "init" && len(v.Args) == 1 {
+			v = stripCT(v.Args[0])
+		}
+		if v.Op != "atomicload" || len(v.Args) == 0 {
+			return false
+		}
+		_, ok := tableOf(v.Args[0])
+		return ok
+	}
+	inSection := func(base string) {
+		if held[base] != "" {
+			if !curHasAccess {
+				sections++
+				curHasAccess = true
+			}
+		}
+	}
+	published := map[string]bool{}
+	var events []*Event
+	walkEvents(p.Events, func(e *Event, _ int) { events = append(events, e) })
+	for _, e := range events {
+		switch e.Kind {
+		case EvLock:
+			base, ok := fieldBase(e.Recv, g.Struct, g.MuField)
+			if !ok {
+				continue
+			}
+			switch e.Mode {
+			case "Lock":
+				rep.Ob("Q2-balanced", name+":Lock", held[base] == "", a.P.Pos(e.Pos), "Lock while already holding the mutex (self-deadlock)")
+				held[base] = "W"
+				curHasAccess = false
+			case "RLock":
+				rep.Ob("Q2-balanced", name+":RLock", held[base] == "", a.P.Pos(e.Pos), "RLock while already holding the mutex")
+				held[base] = "R"
+				curHasAccess = false
+			case "Unlock":
+				rep.Ob("Q2-balanced", name+":Unlock", held[base] == "W", a.P.Pos(e.Pos), fmt.Sprintf("Unlock without a matching Lock (held: %q)", held[base]))
+				delete(held, base)
+			case "RUnlock":
+				rep.Ob("Q2-balanced", name+":RUnlock", held[base] == "R", a.P.Pos(e.Pos), fmt.Sprintf("RUnlock without a matching RLock (held: %q)", held[base]))
+				delete(held, base)
+			default:
+				rep.Ob("Q2-balanced", name+":"+e.Mode, false, a.P.Pos(e.Pos), "conditional lock acquisition "+e.Mode+" is outside the discipline")
+			}
+		case EvAtomic:
+			base, ok := tableOf(e.Recv)
+			if !ok {
+				continue
+			}
+			n++
+			private := false // the registry object itself was made on this path
+			if r := addrRoot(stripCT(e.Recv)); r != nil && r.Op == "alloc" {
+				private = true
+			}
+			if e.Mode == "Load" {
+				if held[base] == "" && !private {
+					loadsOutside++
+				}
+				inSection(base)
+				rep.Ob("W1-table-read-atomically", name+":Load", true, "", "")
+				continue
+			}
+			publishes++
+			rep.Ob("W1-publish-under-writer-lock", name+":"+e.Mode, held[base] == "W" || private, a.P.Pos(e.Pos),
+				fmt.Sprintf("the table is replaced without holding the writers' mutex of the same object exclusively (held: %q): two writers can each publish a copy that lacks the other's update", held[base]))
+			inSection(base)
+			// what is published: the address of a variable of this path holding a map made on this path
+			fresh := false
+			var mk *Val
+			if src := stripCT(e.Src); src != nil && src.Op == "alloc" {
+				if me, has := p.Mem[src.Key()]; has {
+					if m := stripCT(me.V); m != nil && m.Op == "makemap" {
+						fresh, mk = true, m
+					}
+				}
+			}
+			rep.Ob("W1-publishes-private-copy", name+":"+e.Mode, fresh, a.P.Pos(e.Pos), "what is published is not a map made by this operation (a table others may still hold, or hold later, would be shared mutable state): "+valOrNil(e.Src))
+			if mk != nil {
+				published[mk.Key()] = true
+			}
+		case EvMapRead:
+			if fromTable(e.Recv) {
+				n++
+			}
+		case EvMapWrite:
+			if fromTable(e.Recv) {
+				n++
+				rep.Ob("W2-published-table-immutable", name+":write("+e.Mode+")", false, a.P.Pos(e.Pos), "a table obtained from the atomic pointer is written in place: readers index it without any lock")
+			} else if r := stripCT(e.Recv); r != nil && published[r.Key()] {
+				rep.Ob("W4-no-write-after-publication", name+":write("+e.Mode+")", false, a.P.Pos(e.Pos), "the map is written after it has been published")
+			} else {
+				rep.Ob("W2-published-table-immutable", name+":write("+e.Mode+")", true, "", "")
+			}
+		case EvStore:
+			if e.Src != nil && mapEscapes(e.Src, loadedMap) {
+				rep.Ob("Q4-map-does-not-escape", name+":store", false, a.P.Pos(e.Pos), "a published table is stored into "+e.Dst.Pretty()+": it can then be written behind the readers' back")
+			}
+		}
+	}
+	for i, r := range p.Ret {
+		if mapEscapes(r, loadedMap) {
+			rep.Ob("Q4-map-does-not-escape", fmt.Sprintf("%s:ret%d", name, i), false, pos, "a published table is returned: callers can write it while readers index it")
+		}
+	}
+	if !p.Panic {
+		var still []string
+		for b, h := range held {
+			still = append(still, h+" on "+b)
+		}
+		rep.Ob("Q2-released-on-exit", name, len(held) == 0, pos, "function can return while still holding "+strings.Join(still, ", "))
+	}
+	if n > 0 {
+		rep.Ob("R1-one-snapshot-per-operation", name, loadsOutside <= 1, pos, fmt.Sprintf("the operation loads the table %d times without holding the writers' mutex: its answer can mix two different states", loadsOutside))
+		rep.Ob("Q3-single-critical-section", name, sections <= 1, pos, fmt.Sprintf("the table accesses of one operation are spread over %d critical sections: another writer can publish in between (check-then-act)", sections))
+		if publishes > 0 {
+			rep.Ob("W3-decides-on-the-table-it-replaces", name, loadsOutside == 0, pos, "the operation publishes a table derived from a snapshot it loaded outside the writers' critical section: an update published in between is lost")
+		}
 	}
 	return n
 }
@@ -570,8 +751,66 @@ func (a *Analysis) globalFacts() *globalFactsT {
 			}
 		}
 	}
+	// a function literal run under a package-level sync.Once whose assignments are read only after that Once's Do has
+	// returned (in the same function, on every way to the read): the variable is written once, before every read, with
+	// the ordering sync.Once guarantees – start-up state established on first use
+	bodies := onceBodies(a.P)
+	onceGuarded := func(fn *ssa.Function) bool {
+		once := bodies[fn]
+		if once == nil {
+			return false
+		}
+		for _, w := range writes {
+			if w.fn != fn {
+				continue
+			}
+			if w.what != "assign" {
+				return false
+			}
+			for rfn := range readers[w.g] {
+				if rfn == fn {
+					return false
+				}
+				var dos []ssa.Instruction
+				for _, b := range rfn.Blocks {
+					for _, in := range b.Instrs {
+						if c, ok := in.(ssa.CallInstruction); ok && isOnceDo(c, once, fn) {
+							dos = append(dos, in)
+						}
+					}
+				}
+				for _, b := range rfn.Blocks {
+					for _, in := range b.Instrs {
+						ld, ok := in.(*ssa.UnOp)
+						if !ok || ld.X != ssa.Value(w.g) {
+							continue
+						}
+						covered := false
+						for _, do := range dos {
+							if do.Block().Dominates(ld.Block()) && (do.Block() != ld.Block() || instrIndex(do) < instrIndex(ld)) {
+								covered = true
+							}
+						}
+						if !covered {
+							return false
+						}
+					}
+				}
+			}
+			// no other function assigns the variable
+			for _, w2 := range writes {
+				if w2.g == w.g && w2.fn != fn {
+					return false
+				}
+			}
+		}
+		return true
+	}
 	startupOnly := func(fn *ssa.Function) bool {
 		if isInitFunc(fn) {
+			return true
+		}
+		if onceGuarded(fn) {
 			return true
 		}
 		cs := callersOf[fn]
